@@ -81,6 +81,13 @@ gen_problem_cfg(sim::Plan& p, sim::Rng& r)
   p.cfg["data_seed"] = (long)r.below(1000000);
   p.cfg["subsets_pick"] = r.range(0, 7);
   p.cfg["uniform_start"] = r.chance(0.5);
+  // a share of the problems has an image that lies completely inside the field of view (every voxel is crossed by some
+  // LOR): restarts with a prior are then comparable (the known OSSPS finding about voxels without any LOR cannot apply)
+  if (r.chance(0.4))
+    {
+      p.cfg["ndet"] = 8 * r.range(2, 3);
+      p.cfg["xy"] = r.chance(0.5) ? 3 : 5;
+    }
 }
 
 inline Problem
